@@ -144,6 +144,8 @@ func (t *TinyLfu[K, V]) spec_Remove(entry *Entry[K, V], callback bool) {
 		t.slru.protected.count == old(t.slru.protected.count)-ifelse(old(gh_po_in(t.slru.protected, entry)), 1, 0))
 	ensures("weights", all(func(x *Entry[K, V]) bool { return x.policyWeight == old(x.policyWeight) }))
 	ensures("caps", t.window.capacity == old(t.window.capacity) && t.slru.protected.capacity == old(t.slru.protected.capacity))
+	// the status bits (removed, from-secondary, deleted) of every entry are left alone
+	ensures("status_flags", imp(!callback, all(func(x *Entry[K, V]) bool { return x.flag.Flags&(8|16|32) == old(x.flag.Flags)&(8|16|32) })))
 }
 
 // ---- adaptive resizing ---------------------------------------------------------------------------------
